@@ -201,6 +201,8 @@ static char g_cls[80];
 #define RET_NA 3
 #define RET_REPR 4
 #define RET_ERR_UNEXPECTED 5
+#define RET_STALE 6
+#define RET_UNREDUCED 7
 
 static int unexpected(int rc, char *what, const char *human)
 {
@@ -806,17 +808,28 @@ static int run_case(const bc_t *c, char *human, char *what)
             abort();
         }
         r = cmp_res(po, E, what, human, "inverse");
-        if (r == RET_WRONG && BN_ucmp(ea->bn, em->bn) >= 0)
+        if (r == RET_WRONG)
         {
-            /* a >= m is outside "1/a mod b with a reduced": accept any representative that is congruent to the inverse */
+            /* congruent to the inverse but outside [0, m)?  For a >= m (operand not reduced) any representative is accepted;
+             * for a < m it is reported as its own violation class */
             BIGNUM *G = BN_new();
             BN_lebin2bn((unsigned char *) po->dp, po->used * 8, G);
             BN_set_negative(G, po->sign == PSTM_NEG);
             BN_nnmod(G, G, em->bn, bnctx);
             if (!BN_cmp(G, E))
             {
-                r = RET_ERR_ALLOWED;
-                snprintf(g_cls, sizeof(g_cls), "unreduced-representative");
+                if (BN_ucmp(ea->bn, em->bn) >= 0)
+                {
+                    r = RET_ERR_ALLOWED;
+                }
+                else
+                {
+                    char tmp[320];
+                    r = RET_UNREDUCED;
+                    snprintf(tmp, sizeof(tmp), "%.150s: returned value is congruent to the inverse but not reduced into [0, m) (%d digits for a %d-digit modulus)", human,
+                        po->used, em->nd);
+                    snprintf(what, 320, "%s", tmp);
+                }
             }
             BN_free(G);
         }
@@ -862,10 +875,6 @@ static int run_case(const bc_t *c, char *human, char *what)
         BN_mod_exp(E, ea->bn, ex.bn, em->bn, bnctx);
         uel_free(&ex);
         r = cmp_res(po, E, what, human, "result");
-        if (r == RET_REPR && !supported)
-        {
-            r = RET_ERR_ALLOWED;
-        }
         (void) g_ge_p;
         goto done;
     }
@@ -879,7 +888,7 @@ static int run_case(const bc_t *c, char *human, char *what)
         ea = get_el(UK_R, c->d1, c->i1); eb = get_el(UK_R, c->d2, c->i2);
         snprintf(g_cls, sizeof(g_cls), "mod=%s", em->cls);
         HUM("mont_reduce (%s[%d] * %s[%d]) / B^%d mod %s[%d] variant=%d", ea->cls, ea->nd, eb->cls, eb->nd, em->nd, em->cls, em->nd, c->v);
-        if (!BN_is_odd(em->bn) || BN_ucmp(ea->bn, em->bn) >= 0 || BN_ucmp(eb->bn, em->bn) >= 0)
+        if (!BN_is_odd(em->bn) || BN_is_one(em->bn) || BN_ucmp(ea->bn, em->bn) >= 0 || BN_ucmp(eb->bn, em->bn) >= 0)
         {
             DONE(RET_NA); /* Montgomery reduction is defined for odd m and inputs < m*B^n */
         }
@@ -922,6 +931,10 @@ static int run_case(const bc_t *c, char *human, char *what)
         snprintf(g_cls, sizeof(g_cls), "mod=%s", em->cls);
         HUM("mont_norm B^%d mod %s[%d]", em->nd, em->cls, em->nd);
         hex_bn("m", em->bn);
+        if (!BN_is_odd(em->bn))
+        {
+            DONE(RET_NA); /* Montgomery arithmetic is defined for odd moduli only */
+        }
         mk(&m, em, 0, 1); nm = 1;
         mk_junk(&out, (c->v & 1) ? em->nd + 5 : em->nd + 1, (c->v & 1) ? em->nd + 4 : 1, 0); no = 1;
         rc = pstm_montgomery_calc_normalization(&out, &m);
